@@ -473,6 +473,21 @@ def _key_in(k, keys):
         return False
 
 
+def wrap_dicts(draw, v, drop=False):
+    """the same value with (some of) its dicts as instances of plain dict subclasses; optionally one key
+    dropped from one of them"""
+    if isinstance(v, list):
+        return [wrap_dicts(draw, x, drop) for x in v]
+    if isinstance(v, dict):
+        inner = {k: wrap_dicts(draw, x, drop) for k, x in v.items()}
+        if drop and inner and draw(st.booleans()):
+            del inner[draw(st.sampled_from(list(inner)))]
+        if draw(st.integers(0, 3)) > 0:
+            return Wrapped(draw(st.sampled_from(DICT_WRAPPERS)), inner)
+        return inner
+    return v
+
+
 @st.composite
 def conforming(draw, spec):
     """A value conforming to spec, built from the spec alone.  Raises Unsat if none is found."""
